@@ -78,9 +78,10 @@ package rang3
 //@   loop 0 invariant 0 <= m && m <= i && (i > 0 ==> m > 0)
 //@   loop 0 invariant allwf(S)
 //@   loop 0 invariant forall k, l int :: 0 <= k && k < l && l < m ==> S[k].E + 1 < S[l].B
-//@   loop 0 invariant m > 0 ==> forall j int :: {ranges[j]} i <= j && j < len(ranges) ==> S[m-1].B <= ranges[j].B
+//@   loop 0 invariant (m > 0 && i < len(ranges)) ==> S[m-1].B <= ranges[i].B
 //@   loop 0 invariant forall p rune, k int :: {in(p, S[k])} 0 <= k && k < m && in(p, S[k]) ==> exists j int :: 0 <= j && j < i && in(p, ranges[j])
 //@   loop 0 invariant forall p rune, j int :: {in(p, ranges[j])} 0 <= j && j < i && in(p, ranges[j]) ==> exists k int :: 0 <= k && k < m && in(p, S[k])
+//@   loop 0 hint rangeindex + 1 < len(ranges) ==> ranges[rangeindex].B <= ranges[rangeindex + 1].B
 //@   loop 0 decreases len(ranges) - rangeindex
 //
 // ---- Normalize ---------------------------------------------------------------------
